@@ -338,8 +338,9 @@ def main(check: Check, argv=None):
                 known_hit.append(fid)
                 print(f"KNOWN-FINDING: property={check.pid} {findings[fid]['what']}")
             continue
-        os.makedirs(os.path.join(VERIF, "replays"), exist_ok=True)
-        path = os.path.join(VERIF, "replays", f"{check.pid}-{key}.json")
+        rdir = os.environ.get("VERIF_REPLAY_DIR") or os.path.join(VERIF, "replays")
+        os.makedirs(rdir, exist_ok=True)
+        path = os.path.join(rdir, f"{check.pid}-{key}.json")
         with open(path, "w") as f:
             json.dump(_jsonable(cex), f, indent=1)
         violations.append((fl["label"], msg, path))
